@@ -360,6 +360,17 @@ Fixpoint sink_count (sk : sink) (d : nat) : N :=
   | KLazy n d' k => (if Nat.eqb d' d then n else 0) + sink_count k d
   | _ => 0
   end.
+(** ... and the calls of a drain pattern *)
+Fixpoint pat_count (pat : list (bool * sink)) (d : nat) : N :=
+  match pat with
+  | [] => 0
+  | (_, sk) :: rest => sink_count sk d + pat_count rest d
+  end.
+Fixpoint pat_dsts (pat : list (bool * sink)) : list nat :=
+  match pat with
+  | [] => []
+  | (_, sk) :: rest => sink_dsts sk ++ pat_dsts rest
+  end.
 Definition adm_many (c : cfg) (w : world) (d : nat) (m : N) : Prop :=
   forall vv, get_vec d w = Some vv -> (1 <= m -> can_take c vv 1) /\ (2 <= m -> roomy c vv m).
 Lemma adm_many_vec c w d m : 1 <= m -> adm_many c w d m -> adm_vec c w d.
@@ -413,6 +424,7 @@ Definition admissible (c : cfg) (w : world) (o : op) : Prop :=
   | OWithCapacity _ bk n => adm_withcap c bk n
   | OPush _ v _ | OInsert _ v _ _ => adm_vec c w v
   | OPop _ _ k | ORemove _ _ _ k | OSwapRemove _ _ _ k => forall d, In d (sink_dsts k) -> adm_many c w d (sink_count k d)
+  | ODrain _ _ _ _ pat _ => forall d, In d (pat_dsts pat) -> adm_many c w d (pat_count pat d)
   | ONew _ bk | OCloneEmptyIn _ _ bk => bk_wf bk
   | OClone v _ => adm_clone c w v
   | OReserve v n | OReserveExact v n => adm_reserve c w v n
